@@ -18,7 +18,26 @@ from exetera.core import fields as fld
 from exetera.core import operations as ops
 from exetera.core import validation as val
 import h5py
-import csv as csvlib
+
+
+def _csv_record(cells):
+    """
+    One record of a csv file written by to_csv: the cells separated by ',' and ended by '\\n', each cell enclosed in
+    double quotes (with the double quotes inside it doubled) when it contains a comma, a double quote or a line feed -
+    what csv.writer(f, delimiter=',', lineterminator='\\n') writes - and also when it starts with a blank or contains a
+    carriage return: ExeTera's csv reader skips the blanks at the start of an unquoted cell, and standard csv readers
+    end the record at an unquoted carriage return (csv.writer itself quotes it only from Python 3.13 on), so without
+    the quotes such cells are not read back as they were written.
+    """
+    texts = []
+    for cell in cells:
+        text = cell if isinstance(cell, str) else '' if cell is None else str(cell)
+        if text[:1] == ' ' or ',' in text or '"' in text or '\n' in text or '\r' in text:
+            text = '"' + text.replace('"', '""') + '"'
+        texts.append(text)
+    if texts == ['']:
+        texts = ['""']  # a single empty cell: the line must not be empty
+    return ','.join(texts) + '\n'
 
 
 class HDF5DataFrame(DataFrame):
@@ -622,10 +641,8 @@ class HDF5DataFrame(DataFrame):
         fields_to_use = [self._columns[f] for f in field_name_to_use]
 
         with open(filepath, 'w', newline='', encoding='utf-8') as f:
-            writer = csvlib.writer(f, delimiter=',',lineterminator='\n')
-
             # write header names
-            writer.writerow(field_name_to_use)
+            f.write(_csv_record(field_name_to_use))
 
             start_row = 0
             while True:
@@ -638,7 +655,7 @@ class HDF5DataFrame(DataFrame):
 
                 for i, row in enumerate(zip(*chunk_data)):
                     if filter_array is None or (i + start_row <len(filter_array) and filter_array[i + start_row] == True):
-                        writer.writerow(row)
+                        f.write(_csv_record(row))
 
                 if len(chunk_data[0]) < chunk_row_size:
                     break
